@@ -140,6 +140,71 @@ func VerifC03Honest(kind int) {
 	verif_reach("C03.honest.ok")
 }
 
+// VerifC03Replay: the honest signers HAVE signed one genuine event, and that event was opened first (whatever the code
+// remembers from it is in place). The adversary, who knows the group secret, then presents a free envelope: anything
+// accepted that names an honest key carries exactly the payload that key signed -- an altered payload, a swapped signer
+// field or a reused signature over other content is rejected.
+func VerifC03Replay(kind int) {
+	g, gsk, err := protocoltypes.NewGroupMultiMember()
+	verif_assume(err == nil)
+	dsk, dpk := verifFreshKey()
+	msk, mpk := verifFreshKey()
+	dRaw, _ := dpk.Raw()
+	mRaw, _ := mpk.Raw()
+	var env []byte
+	var et protocoltypes.EventType
+	switch kind {
+	case 0: // device-signed
+		et = protocoltypes.EventType_EventTypeGroupMetadataPayloadSent
+		ev := &protocoltypes.GroupMetadataPayloadSent{DevicePk: dRaw, Message: verif_anyBytesNonNil("app")}
+		sig, err := signProtoWithPrivateKey(ev, dsk)
+		verif_assume(err == nil)
+		env, err = sealGroupEnvelope(g, et, ev, sig)
+		verif_assume(err == nil)
+	case 1: // group-signed
+		et = protocoltypes.EventType_EventTypeMultiMemberGroupInitialMemberAnnounced
+		ev := &protocoltypes.MultiMemberGroupInitialMemberAnnounced{MemberPk: mRaw}
+		sig, err := signProtoWithPrivateKey(ev, gsk)
+		verif_assume(err == nil)
+		env, err = sealGroupEnvelope(g, et, ev, sig)
+		verif_assume(err == nil)
+	default: // member + device
+		et = protocoltypes.EventType_EventTypeGroupMemberDeviceAdded
+		msig, err := msk.Sign(dRaw)
+		verif_assume(err == nil)
+		ev := &protocoltypes.GroupMemberDeviceAdded{MemberPk: mRaw, DevicePk: dRaw, MemberSig: msig}
+		sig, err := signProtoWithPrivateKey(ev, dsk)
+		verif_assume(err == nil)
+		env, err = sealGroupEnvelope(g, et, ev, sig)
+		verif_assume(err == nil)
+	}
+	verif_honestKey(dsk)
+	verif_honestKey(msk)
+	verif_honestKey(gsk)
+	meta0, _, err := openGroupEnvelope(g, env)
+	verif_assert(err == nil && meta0 != nil, "C03.replay: the genuine event is accepted")
+	if err != nil || meta0 == nil {
+		return
+	}
+	data := verif_anyBytesNonNil("envelope")
+	meta, payload, err := openGroupEnvelope(g, data)
+	if err != nil {
+		return
+	}
+	verif_reach("C03.replay.accepted")
+	same := verif_bytesEq(meta.Payload, meta0.Payload)
+	if meta.EventType == protocoltypes.EventType_EventTypeMultiMemberGroupInitialMemberAnnounced {
+		verif_assert(same, "C03.replay: the group key signed one announcement only: another one is rejected")
+		return
+	}
+	if mda, ok := payload.(*protocoltypes.GroupMemberDeviceAdded); ok && verif_bytesEq(mda.MemberPk, mRaw) {
+		verif_assert(verif_bytesEq(mda.DevicePk, dRaw), "C03.replay: the member key endorsed one device only: another device is not attached to it")
+	}
+	if named, ok := payload.(verifDevNamed); ok && verif_bytesEq(named.GetDevicePk(), dRaw) {
+		verif_assert(same, "C03.replay: an event naming the honest device carries exactly the payload that device signed")
+	}
+}
+
 // VerifC03StateUnchanged: an entry whose envelope does not open leaves every index map empty.
 func VerifC03StateUnchanged(gt int) {
 	ss := verifSecretStore("s")
